@@ -39,6 +39,8 @@ CODE_KEEPSAFE = ("Crng.Tie.CodeKeepSafe", ["add_eq", "getAll_eq", "getAll_after_
 CODE_REWRITER = ("Crng.Tie.CodeRewriter", ["do_literal_eq", "do_not_skips", "do_regex", "do_notRe_precedence"])
 CODE_TABLEOPS = ("Crng.Tie.CodeTableOps", ["addRoute_eq", "addBlacklist_eq", "addAggregator_eq", "addRewriter_eq", "delBlacklist_eq",
                                              "delRewriter_eq", "delAggregator_eq", "delRoute_eq", "cut_eq_eraseIdx"])
+CODE_COMPOSE = ("Crng.Tie.CodeCompose", ["dispatch_dest_sends", "rejected_no_dest_sends", "consumed_iff", "aggTrace_no_dest_send",
+                                           "sendAllRoute_dispatch", "sendFirstRoute_dispatch"])
 CODE_AGG = ("Crng.Tie.CodeAgg", ["addMaybe_eq", "withheld_consumed", "no_dropraw_never_withholds"])
 
 TRUSTED_BASE = [
